@@ -77,9 +77,14 @@ EdgeDelay(j) == C.edges[j].delay
 FA == -1      \* policy FIRST_AVAILABLE
 RRP == -2     \* policy ROUND_ROBIN; a policy >= 0 is a constant edge index
 SCR == -3     \* a user-supplied callable / generator: the node's script pinS / poutS, consumed cyclically, one value per selection
+RND == -4     \* policy RANDOM: any edge of the list, chosen afresh for every item (the generator behind it is not modelled:
+              \* every sequence of choices is a behaviour, so whatever the seeded generator picks is covered)
 SelS(pol, cnt, n, scr) == IF pol = RRP THEN (cnt % n) + 1
                           ELSE IF pol = SCR THEN scr[(cnt % Len(scr)) + 1] + 1
                           ELSE pol + 1     \* 1-based position in the edge list
+
+\* the set of positions a selection may yield (a singleton except for RANDOM)
+SelSet(pol, cnt, n, scr) == IF pol = RND THEN 1..n ELSE {SelS(pol, cnt, n, scr)}
 
 PosOfEdge(i, j) == CHOOSE k \in 1..Len(N(i).ins) : N(i).ins[k] = j
 Idle == [pc |-> "idle", rem |-> 0, item |-> 0, toks |-> <<>>, k |-> 0, rr |-> 0, rro |-> 0, slots |-> 0]
@@ -137,7 +142,7 @@ SrcCreate(i) ==
               /\ S' = [S EXCEPT ![i] = [@ EXCEPT !.pc = nxt.pc, !.rem = nxt.rem, !.k = k1]]
               /\ UNCHANGED <<E, tc>>
         ELSE
-          LET m == SelS(N(i).pout, S[i].rro, Len(outs), N(i).poutS) j == outs[m] IN
+          \E m \in SelSet(N(i).pout, S[i].rro, Len(outs), N(i).poutS) : LET j == outs[m] IN
           IF N(i).blocking \/ CanPut(E[j]) THEN
             LET r == ReserveAll(E, tc, <<j>>, Pid(i, 1), TRUE, <<>>) IN
             /\ E' = r.E /\ tc' = r.tc /\ place' = pl1 /\ ctr' = c1
@@ -200,9 +205,11 @@ MachSetup(i) ==
 MachReq(i) ==
   /\ N(i).type = "machine" /\ S[i].pc = "req" /\ S[i].slots < N(i).wc
   /\ LET ins == N(i).ins
-         js  == IF N(i).pin = FA THEN ins ELSE <<ins[SelS(N(i).pin, S[i].rr, Len(ins), N(i).pinS)]>>
-         r   == ReserveAll(E, tc, js, Pid(i, 0), FALSE, <<>>)
-     IN /\ E' = r.E /\ tc' = r.tc
+     IN \E m \in (IF N(i).pin = FA THEN {0} ELSE SelSet(N(i).pin, S[i].rr, Len(ins), N(i).pinS)) :
+        LET js  == IF N(i).pin = FA THEN ins ELSE <<ins[m]>>
+            r   == ReserveAll(E, tc, js, Pid(i, 0), FALSE, <<>>)
+        IN
+        /\ E' = r.E /\ tc' = r.tc
         /\ S' = [S EXCEPT ![i] = [@ EXCEPT !.pc = "wait", !.toks = r.toks, !.slots = @ + 1,
                                            !.rr = IF N(i).pin = FA THEN @ ELSE @ + 1]]
   /\ UNCHANGED <<W, place, ctr>> /\ Step
@@ -257,7 +264,7 @@ WorkDone(i, w) ==
               /\ W' = [W EXCEPT ![i][w] = AfterItem(@)]
               /\ UNCHANGED <<E, tc, S>>
         ELSE
-          LET m == SelS(N(i).pout, S[i].rro, Len(outs), N(i).poutS) j == outs[m] IN
+          \E m \in SelSet(N(i).pout, S[i].rro, Len(outs), N(i).poutS) : LET j == outs[m] IN
           IF N(i).blocking \/ CanPut(E[j]) THEN
             LET r == ReserveAll(E, tc, <<j>>, me, TRUE, <<>>) IN
             /\ E' = r.E /\ tc' = r.tc /\ W' = [W EXCEPT ![i][w] = [@ EXCEPT !.pc = "sub", !.toks = r.toks]]
@@ -307,9 +314,11 @@ SplSetup(i) ==
 SplReq(i) ==
   /\ N(i).type = "splitter" /\ S[i].pc = "req"
   /\ LET ins == N(i).ins
-         js  == IF N(i).pin = FA THEN ins ELSE <<ins[SelS(N(i).pin, S[i].rr, Len(ins), N(i).pinS)]>>
-         r   == ReserveAll(E, tc, js, Pid(i, 0), FALSE, <<>>)
-     IN /\ E' = r.E /\ tc' = r.tc
+     IN \E m \in (IF N(i).pin = FA THEN {0} ELSE SelSet(N(i).pin, S[i].rr, Len(ins), N(i).pinS)) :
+        LET js  == IF N(i).pin = FA THEN ins ELSE <<ins[m]>>
+            r   == ReserveAll(E, tc, js, Pid(i, 0), FALSE, <<>>)
+        IN
+        /\ E' = r.E /\ tc' = r.tc
         /\ S' = [S EXCEPT ![i] = [@ EXCEPT !.pc = "wait", !.toks = r.toks, !.rr = IF N(i).pin = FA THEN @ ELSE @ + 1]]
   /\ UNCHANGED <<W, place, ctr>> /\ Step
 
